@@ -495,13 +495,28 @@ pub fn vmap_into_collect<T, U, F: Fn(T) -> U>(f: F, xs: Vec<T>) -> (r: Vec<U>)
 /// `sos_external_files::FileStorageDiff<'a>` (types.rs:37) — real shape
 pub struct FileStorageDiff<'a> { pub deleted: Vec<&'a Secret>, pub unchanged: Vec<&'a Secret> }
 /// file_manager.rs:614 `get_file_secret_diff` (not under contract: `iter().find(|other| field.secret() == other.secret())` needs
-/// `PartialEq for Secret`): which external files of the old secret are gone, which of the new one are unchanged
+/// `PartialEq for Secret`): which external files of the old secret are gone, which of the new one are unchanged.
+/// The answer is a FUNCTION of the two secrets (it reads nothing else): `diff_unchanged` names it.
+pub uninterp spec fn diff_unchanged(old_secret: Secret, new_secret: Secret) -> Seq<Secret>;
 #[verifier::external_body]
-pub fn get_file_secret_diff<'a>(old_secret: &'a Secret, new_secret: &'a Secret) -> (r: FileStorageDiff<'a>) { unimplemented!() }
+pub fn get_file_secret_diff<'a>(old_secret: &'a Secret, new_secret: &'a Secret) -> (r: FileStorageDiff<'a>)
+    ensures r.unchanged@.len() == diff_unchanged(*old_secret, *new_secret).len(),
+        forall|i: int| 0 <= i < r.unchanged@.len() ==> *(#[trigger] r.unchanged@[i]) == diff_unchanged(*old_secret, *new_secret)[i],
+{ unimplemented!() }
+impl Summary {
+    /// all fields of the summary (version, id, name, cipher, kdf, flags): what the derived `PartialEq` compares
+    pub uninterp spec fn all_fields(&self) -> Seq<u8>;
+}
 impl PartialEq for Summary {
-    /// `#[derive(PartialEq)]` on Summary (vault.rs:172): all fields equal; nothing is promised here
+    /// `#[derive(PartialEq)]` on Summary (vault.rs:172): all fields equal
     #[verifier::external_body]
-    fn eq(&self, other: &Self) -> (r: bool) { unimplemented!() }
+    fn eq(&self, other: &Self) -> (r: bool)
+        ensures r == (self.all_fields() == other.all_fields()),
+    { unimplemented!() }
+}
+impl vstd::std_specs::cmp::PartialEqSpecImpl for Summary {
+    open spec fn obeys_eq_spec() -> bool { true }
+    open spec fn eq_spec(&self, other: &Summary) -> bool { self.all_fields() == other.all_fields() }
 }
 impl PartialEq for Uuid {
     /// `uuid::Uuid` equality: derived `PartialEq` on the 16 bytes
@@ -509,6 +524,10 @@ impl PartialEq for Uuid {
     fn eq(&self, other: &Self) -> (r: bool)
         ensures r == (self@ == other@),
     { self.0 == other.0 }
+}
+impl vstd::std_specs::cmp::PartialEqSpecImpl for Uuid {
+    open spec fn obeys_eq_spec() -> bool { true }
+    open spec fn eq_spec(&self, other: &Uuid) -> bool { self@ == other@ }
 }
 impl Clone for FileMutationEvent {
     /// `#[derive(Clone)]` on FileMutationEvent (types.rs:67): an equal value
